@@ -253,7 +253,9 @@ def construct(tr, n):
         return None
     if k in ('agg', 'url', 'comp', 'base', 'usp'):
         if not argn:
-            return 'G_%s_default' % ct.c.replace('struct ', '')
+            nm = ct.c.replace('struct ', '') + '_default'
+            tr.ctx.need_globals.add((nm, '@default'))
+            return 'G_' + nm
         if len(argn) == 1 and tr.klass(argn[0]) == k:
             return tr.e(argn[0])
         return None
@@ -431,7 +433,12 @@ def operator_call(tr, opname, ops, n, callee):
 STD_FREE = {'memcpy': 'memcpy', 'memcmp': 'memcmp', 'memmove': 'memmove', 'memset': 'memset', 'strlen': 'strlen'}
 
 
+MODEL_FREE = {'get_max_input_length': 'get_max_input_length'}
+
+
 def free_call(tr, name, sig, argn, n):
+    if name in MODEL_FREE and not argn:
+        return '%s()' % MODEL_FREE[name]
     if name in ('move', 'forward', 'addressof') and len(argn) == 1 and 'remove_reference' in sig or name in ('move', 'forward') and len(argn) == 1:
         if name == 'addressof':
             return tr.addr(argn[0])
